@@ -188,4 +188,10 @@ impl EncEnv for RefEnc {
         hash160::Hash::hash(&self.key_bytes(l)).to_byte_array().to_vec()
     }
     fn hash_bytes(&self, kind: char, l: &str) -> Vec<u8> { hash_bytes(kind, l) }
+    fn sort_key(&self, l: &str) -> Vec<u8> {
+        match self.form {
+            KeyForm::XOnly => key(l).x32(),
+            _ => key(l).compressed(),
+        }
+    }
 }
